@@ -492,6 +492,16 @@ def rule_refs(ctx):
                         cut[b] = z                       # success edge: the endpoint keeps the hold
                 elif fnm in ("nni_list_append", "nni_list_prepend", "nni_reap") and uses:
                     rel.add((c.b, c.i))                  # parked in a longer-lived container that owns the reference
+                elif fnm and uses:
+                    # a file-local helper that releases the parameter it is given
+                    h = prog.resolve(f, fnm)
+                    if h is not None and h.file == f.file and not h.cfg_failed and h is not f:
+                        for k in uses:
+                            if k < len(h.params) and any(
+                                    x.node.get("fn") in RELEASE[kind] and any(
+                                        (lambda y: y is not None and y.get("k") == "var" and y["n"] == h.params[k]["n"])(h.expand(z))
+                                        for z in x.node["args"] if z is not None) for x in h.calls()):
+                                rel.add((c.b, c.i))
             # handing the object to the caller / storing it in a longer-lived place ends the obligation
             for t in f.assigns():
                 rhs = f.expand(t.node["rhs"])
@@ -551,7 +561,7 @@ def rule_closeall(ctx):
     from .. import guards as G
     r = ctx.rule("C10.R5", "T2", "close completes everything: a protocol function that aborts the operations parked on a context or "
                  "socket (ctx_fini / sock_close slots and the *_ctx_close helpers they call) examines each parked-aio field it "
-                 "handles on every path -- handling one pending operation must not skip the other", floor=8)
+                 "handles on every path -- handling one pending operation must not skip the other", floor=4)
     prog = ctx.prog
     fns = []
     for slot in ("nni_proto_ctx_ops.ctx_fini", "nni_proto_sock_ops.sock_close"):
@@ -584,7 +594,7 @@ def rule_closeall(ctx):
                          % (f.name, lf), G.path_lines(f, (f.entry, 0), (f.exit, 0), None, set(pos)))
             else:
                 r.ob(f, "%s examined on every path" % lf)
-    if n < 6:
+    if n < 4:
         raise AnalysisBroken("only %d parked-aio fields in close functions" % n)
 
 
